@@ -47,7 +47,7 @@ func genNumOp(r *rng, canGen bool) numOp {
 		}
 		return fixItem(numOp{Kind: "Item", Type: r.intn(len(listTypes)), Sym: r.intn(len(bulletSyms)), Start: []int{0, 1, 1, 1, 5, 7, 100, -3}[r.intn(8)], Level: lvl, Via: []string{"AddListItem", "AddListItem", "AddBulletList", "AddNumberedList", "CreateMultiLevelList"}[r.intn(5)], Text: r.rangeI(2, 900)})
 	case 1:
-		return numOp{Kind: "Note", End: r.chance(40), Text: r.rangeI(2, 900)}
+		return numOp{Kind: "Note", End: r.chance(40), Text: r.rangeI(2, 900), Start: []int{0, 0, 0, 0, 1, 2, 3, 5}[r.intn(8)]}
 	case 2:
 		return numOp{Kind: "Remove", End: r.chance(40), ID: r.rangeI(0, 6)}
 	case 3:
@@ -402,6 +402,12 @@ func runNumCase(ops []numOp) (coq string, fail *OracleFailure, nOK int) {
 				nOK++
 			case "Note":
 				var err error
+				if op.Start > 0 {
+					// the numbering options of notes (format, the number the display starts with, restart rule) say how notes
+					// are shown: they change neither the notes that exist nor the ids new ones get
+					_ = d.SetFootnoteConfig(&document.FootnoteConfig{NumberFormat: document.FootnoteFormatDecimal, StartNumber: op.Start,
+						RestartEach: document.FootnoteRestartContinuous, Position: document.FootnotePositionPageBottom})
+				}
 				if op.End {
 					err = d.AddEndnote("body", fmt.Sprintf("N%d", op.Text))
 					o.en[o.enNext] = op.Text
